@@ -570,6 +570,11 @@ def check(step, w=None):
     got = after[ti][0]
     used = set()
     if not same_modulo_new(exp, got, set(step["new_ids"]), used):
+        if brief(got) == brief(exp).replace("None", "?") or brief(got) == brief(exp):
+            gp = {x[0]: x[1] for x, _ in walk(got)}
+            for x, _ in walk(exp):
+                if x[0] is not None and gp.get(x[0]) != x[1]:
+                    return f"effect: {name}: node {x[0]} has payload [data, data_id, kind, meta] = {gp.get(x[0])} but the documented effect gives {x[1]}"
         return f"effect: {name}: tree is {brief(got)} but the documented effect gives {brief(exp)}"
     want = s[2]
     if want == "new":
